@@ -3,9 +3,9 @@ package main
 import "golang.org/x/tools/go/ssa"
 
 func init() {
-	register("C38", []string{"."}, runC38)
-	propExplain["C38"] = "Decides the capture clause of C38 in DB.Checkpoint: file deletions are disabled before anything is captured and re-enabled by a deferred call; the current version, the MANIFEST size, the list of WALs, the queue of flushable ingests and the visible sequence number are all captured inside ONE region in which both DB.mu and the manifest lock are held, and the version is referenced before that region ends (released by a deferred Unref); with flushWAL the WAL is synced before the capture; success is returned only after the checkpoint directory was synced. Does not decide the contents of restricted-span checkpoints (value-level)."
-	propTechnique["C38"] = "SSA lock-region dataflow (two locks), ordering, resource pairing"
+	register("C38", []string{".", "./record"}, runC38)
+	propExplain["C38"] = "Decides the capture clause of C38 in DB.Checkpoint: file deletions are disabled before anything is captured and re-enabled by a deferred call; the current version, the MANIFEST size, the list of WALs, the queue of flushable ingests and the visible sequence number are all captured inside ONE region in which both DB.mu and the manifest lock are held, and the version is referenced before that region ends (released by a deferred Unref); with flushWAL the WAL is synced before the capture; success is returned only after the checkpoint directory was synced. The MANIFEST copy stops at err == io.EOF: no function below record.Reader.Next (its sticky error field included) returns a wrapped error (error identity). Does not decide the contents of restricted-span checkpoints (value-level)."
+	propTechnique["C38"] = "SSA lock-region dataflow (two locks), ordering, resource pairing, error-identity (no-wrap) check"
 }
 
 func runC38(c *Ctx) {
@@ -69,4 +69,9 @@ func runC38(c *Ctx) {
 	fl2 := NewFlow(c.P).Ok("ok:dir.Sync", dirSync)
 	res2 := fl2.Analyze(fn, emptyState())
 	c.RequireAtSuccess("C38.O2", res2, "checkpoint directory sync", []string{"ok:dir.Sync"})
+	// C38.E2: the MANIFEST copy stops at `err == io.EOF` (the captured size); the record reader
+	// must hand that sentinel on unwrapped, or every checkpoint fails / copies a torn tail.
+	if wfn := c.Fn("C38.E2", "p.(*DB).writeCheckpointManifest"); wfn != nil {
+		c.ErrIdentityIn("C38.E2", wfn, 1)
+	}
 }
